@@ -4,6 +4,7 @@ CONSTANTS
  Shapes <- ShOk12
  MaxFaults = 2
  MaxCrashes = 1
+ MaxIdxLoss = 0
  InlineAt = 3
  Interval = 3
  MBs = {80}
